@@ -95,7 +95,7 @@ func attrMixes(thorough bool) []attrMix {
 	return ms
 }
 
-var feeStates = []string{"preamble", "exec-min", "exec-frac"}
+var feeStates = []string{"preamble", "exec-min", "exec-frac", "policy-twice"}
 
 // feePlan is the enumeration of one (state, first signer, attribute mix) job:
 // the shapes of the second and third signer and the script lengths.
